@@ -301,6 +301,12 @@ class LRI(dict):
                 ret[key] = value
             return ret
 
+    def __copy__(self):
+        # the default (reduce-based) copy.copy() would share the linked
+        # list and the link table with the original
+        with self._lock:
+            return self.copy()
+
     def setdefault(self, key, default=None):
         with self._lock:
             try:
